@@ -20,7 +20,7 @@ from __future__ import annotations
 import ast
 import itertools
 
-from .index import AnalysisError, ClassInfo, unparse
+from .index import AnalysisError, ClassInfo, unparse, NotConst
 from .values import Top, HObj, Ref, Exc, State, ClassVal, GE2
 from .absint import Interp
 from .report import Finding
@@ -33,6 +33,7 @@ WHAT = {
     "M5": "each argument's original text is step_text[start:end] for the start/end it stores",
     "M6": "the default matcher is restored after each step module",
     "M7": "step decorators for given/when/then/step in lower and title case",
+    "M11": "a type converter whose pattern contains capturing groups declares their number (parse's contract: otherwise the groups of the fields behind it are shifted and the step function receives the wrong texts)",
     "M10": "the function behind a decorated step function is found through every layer of functools.wraps (its location identifies the step definition: duplicates vs. ambiguity)",
     "M9": "the parse-family matchers (parse, cfparse) share the one type registry register_type() writes",
     "M8": "each parse matcher builds its own parser from its pattern and its own custom types (no sharing across matchers)",
@@ -586,3 +587,93 @@ def check_unwrap_function(chk, ix):
                   "unwrap_function on a step function behind %d functools.wraps layer(s) returns %s: two different step functions decorated by the "
                   "same decorators then share one location - a second definition with the same pattern is taken for a reload of the first "
                   "instead of raising AmbiguousStep" % (layers, outs[0][0].obj(got).label if isinstance(got, Ref) else repr(got)))
+
+
+
+def check_same_step_definition(chk, ix):
+    """M3 (what 'the same definition again' means): same pattern text AND same source location (a module loaded twice) -
+    a definition whose pattern merely MATCHES the new pattern text is a different definition (stacked decorators with a
+    general and a special pattern on one function are ambiguous, not a reload)."""
+    chk.rule("M3", WHAT["M3"])
+    rc = ix.cls("behave.step_registry:StepRegistry")
+    f = rc.lookup("same_step_definition")
+    if f is None:
+        raise AnalysisError("anchor missing: StepRegistry.same_step_definition")
+    cases = [("a {thing}", "a {thing}", "same", True), ("a {thing}", "a special thing", "same", False), ("a {thing}", "a {thing}", "other", False),
+             ("a {thing}", "a {thing}", "<string>", False)]
+    for own, new_text, where, want in cases:
+        st = State()
+        st.frames = []
+        flc = ix.cls("behave.model_core:FileLocation")
+        loc = st.alloc(HObj(flc, {"filename": "<string>" if where == "<string>" else "steps/a.py", "line": 10}, label="location"))
+        # an equal location object (a reloaded module creates new objects) or another line of the file
+        loc2 = st.alloc(HObj(flc, {"filename": "<string>" if where == "<string>" else "steps/a.py", "line": 10 if where in ("same", "<string>") else 20},
+                             label="location of the new definition"))
+        step = st.alloc(HObj("DefTok", {"pattern": own, "location": loc}, label="existing definition"))
+        it = Interp(ix, stubs={"DefTok.matches": lambda i, s_, a, k, n: [(s_, "val", True)],      # the existing pattern does match the new text
+                               "DefTok.match": lambda i, s_, a, k, n: [(s_, "val", "MATCH")]}, name="same_step_definition")
+        it.int_sat = 100
+        outs = it.call_function(st, f, [step, new_text, loc2], {}, None)
+        chk.absorb(it)
+        chk.instance("M3")
+        vals = set()
+        for (s_, k, v) in outs:
+            if k != "val":
+                raise AnalysisError("same_step_definition raises: %r" % (v,))
+            for (_s, b) in it.truth(s_.fork(), v):
+                vals.add(b)
+        if vals == {want}:
+            chk.ok("M3", {"existing pattern": own, "new pattern text": new_text, "location": where, "same definition": want}, nontrivial_key=("same", own, new_text, where))
+        else:
+            _fail(chk, "M3", f, "%r vs %r at %s location -> %s" % (own, new_text, where, sorted(vals)),
+                  "an existing definition with pattern %r and a new one with pattern text %r at %s source location are taken for %s; expected %s "
+                  "(only the identical pattern text from the identical location is a re-registration to be ignored - anything else that matches "
+                  "must raise AmbiguousStep)" % (own, new_text, "the same" if where in ("same", "<string>") else "another",
+                                                "the same definition" if True in vals else "different definitions",
+                                                "the same definition" if want else "different definitions"))
+
+
+
+def check_type_pattern_groups(chk, ix):
+    """M11: for every converter decorated with parse.with_pattern(PATTERN[, regex_group_count=N]) in behave.parameter_type:
+    the number of capturing groups of PATTERN (counted by the stdlib's re) equals N (0 when N is not given)."""
+    import re as _re
+    chk.rule("M11", WHAT["M11"])
+    mod = ix.module("behave.parameter_type")
+    n = 0
+    for fn in ast.walk(mod.tree):
+        if not isinstance(fn, ast.FunctionDef):
+            continue
+        for d in fn.decorator_list:
+            if not (isinstance(d, ast.Call) and unparse(d.func).split(".")[-1] == "with_pattern" and d.args):
+                continue
+            try:
+                pat = ix.fold(d.args[0], mod)
+            except NotConst:
+                raise AnalysisError("M11: the pattern of %s is not a constant" % fn.name)
+            declared = 0
+            extra = (d.args[1:2] or [k.value for k in d.keywords if k.arg == "regex_group_count"])
+            if extra:
+                try:
+                    declared = ix.fold(extra[0], mod) or 0
+                except NotConst:
+                    raise AnalysisError("M11: regex_group_count of %s is not a constant" % fn.name)
+            try:
+                groups = _re.compile(pat).groups
+            except _re.error as e:
+                groups = None
+                err = str(e)
+            n += 1
+            chk.instance("M11")
+            if groups is None:
+                _fail(chk, "M11", ix.func("behave.parameter_type:" + fn.name), "%s: invalid pattern" % fn.name,
+                      "the pattern %r of the type converter %s is not a valid regular expression (%s)" % (pat, fn.name, err))
+            elif groups == declared:
+                chk.ok("M11", {"converter": fn.name, "pattern": pat, "capturing groups": groups, "declared": declared}, nontrivial_key=fn.name)
+            else:
+                _fail(chk, "M11", ix.func("behave.parameter_type:" + fn.name), "%s: %d groups, %d declared" % (fn.name, groups, declared),
+                      "the pattern %r of the type converter %s has %d capturing group(s) but declares regex_group_count=%d: in a step pattern where "
+                      "another field follows this one, parse assigns the groups to the wrong fields (the step function gets the inner group's text)"
+                      % (pat, fn.name, groups, declared))
+    if n < 3:
+        raise AnalysisError("M11: only %d converters with a pattern found in behave.parameter_type" % n)
